@@ -1,2 +1,53 @@
-/-! Line-protocol driver stub for the compile cluster (to be written by the cluster owner). -/
-def main : IO Unit := IO.println "bad-op"
+import J5V.Go.Hex
+import J5V.Compile.Sexp
+/-!
+Line-protocol driver of the compile cluster (core only): `harness/PROTOCOL-compile.md`.
+One op per input line, one result per output line.
+-/
+open J5V.Go J5V.Compile
+
+def outcomeSkel (o : Outcome (List FileSkel)) : String :=
+  match o with
+  | .ok fs => let s := skelStr fs; if s.isEmpty then "ok" else "ok " ++ s
+  | .err _ => "err"
+  | .panic _ => "panic"
+
+def step (line : String) : String :=
+  match parseLine line with
+  | none => "bad-op"
+  | some (op, args) =>
+    match op, args with
+    | "skel", b :: p :: _ | "entity", b :: p :: _ =>
+      match dBundle b, dStr p with
+      | some b, some p => outcomeSkel (compileLinked b p)
+      | _, _ => "bad-op"
+    | "total.ast", b :: p :: _ =>
+      match dBundle b, dStr p with
+      | some b, some p => (compileLinked b p).cls
+      | _, _ => "bad-op"
+    | "total.src", _ => "skip"
+    | "strcase", [.atom fn, s] =>
+      match dStr s with
+      | some s =>
+        match fn with
+        | "camel" => "ok " ++ toHexW (toCamel s)
+        | "lowercamel" => "ok " ++ toHexW (toLowerCamel s)
+        | "snake" => "ok " ++ toHexW (toSnake s)
+        | "screamingsnake" => "ok " ++ toHexW (toScreamingSnake s)
+        | _ => "bad-op"
+      | none => "bad-op"
+    | "evolve", _ => "skip"
+    | "det", _ => "skip"
+    | _, _ => "bad-op"
+
+partial def loop (h : IO.FS.Stream) (out : IO.FS.Stream) : IO Unit := do
+  let line ← h.getLine
+  if line.isEmpty then return ()
+  out.putStrLn (step line)
+  out.flush
+  loop h out
+
+def main : IO Unit := do
+  let out ← IO.getStdout
+  loop (← IO.getStdin) out
+  out.flush
